@@ -116,6 +116,8 @@ def run(ck, m):
                 else:
                     ops_.append(e_)
             for o_ in ops_:
+                if isinstance(o_, ast.Name):
+                    o_ = trace(fn_, o_, use=c)
                 if isinstance(o_, ast.Call) and isinstance(o_.func, ast.Attribute) and norm(o_.func.value) in ("self", "cls"):
                     for rel2, q2, f2 in by_name4.get(o_.func.attr, []):
                         n_scaled += 1
@@ -125,7 +127,7 @@ def run(ck, m):
                                 rounded = (isinstance(tv_, ast.Call) and (call_name(tv_) or "") in ROUNDERS) or (isinstance(tv_, ast.BinOp) and isinstance(tv_.op, ast.FloorDiv))
                                 ck.ob("R2", r_, not rounded, f"{q2} returns a rounded value (`{short(tv_, 50)}`) that {q_} scales and rounds again (`{short(c, 60)}`): the two rounding errors add up and the derived "
                                       "dimension can differ from the exact proportional one by more than one unit", stmt=f"{q2}: unrounded where {q_} scales and rounds its result")
-    ck.expect(n_scaled >= 2, f"scaled-then-rounded helper results found: {n_scaled}")
+    ck.expect(n_scaled >= 1, f"scaled-then-rounded helper results found: {n_scaled}")
     units = {}
     for rel, cname in ((BL, "BlockImage"), (CM, "GraphicsImage")):
         for meth, par, axis in (("_pixels_cols", "cols", 0), ("_pixels_lines", "lines", 1)):
@@ -295,5 +297,7 @@ MUTANTS = [
       "    rendered_size = property(\n        lambda self: (\n            self._get_rendered_size()\n            if isinstance(self._size, Size)\n            else self._size\n        ),", {"R3"}),
     M("auto-divides", CM, "BaseImage._valid_size", "or round(ori_height * self._pixel_ratio) > frame_height", "or round(ori_height / self._pixel_ratio) > frame_height", {"R5"}),
     M("clamp-wrong-dim", CM, "BaseImage._valid_size", "height_px = min(_height_px, frame_height)", "height_px = min(_height_px, frame_width)", {"R5"}),
+    M("size-setter-shortcut", CM, "BaseImage.size", "            self.set_size(*size)\n", "            if size != self.rendered_size:\n                self.set_size(*size)\n", {"R3"}),
+    M("helper-rounds-too", CM, "BaseImage._width_height_px", "        return (\n", "        return round(\n", {"R2"}),
     M("twin-rename-local", CM, "BaseImage._valid_size", "smaller_ratio", "min_ratio", twin=True, count=0),
 ]
